@@ -1,6 +1,6 @@
 CONSTANTS
   Sessions = {"s1", "s2"}
-  Ghosts = {"null", "unknown", "foreign", "alias"}
+  Ghosts = {"null", "alias"}
   NodeSet = {"n"}
   Values = {1}
   SubIds = {}
